@@ -46,7 +46,9 @@ def gen_c08(tier, rng):
              ("c", "x"), ("c", "{"), ("c", "}"), ("d", "1.5"), ("d", "-0.25"), ("d", "100"), ("d", "0"),
              ("s", ""), ("s", "{}"), ("s", "a b"), ("s", "\xff\x80"), ("p", "{}"), ("p", ""), ("p", "lit"),
              # user types whose inserters leave sticky formatting state behind (hex/showbase; fixed/precision)
-             ("h", "0xff"), ("h", "0x10"), ("f", "2.50"), ("f", "-0.13"), ("i", "255"), ("d", "0.125")]
+             ("h", "0xff"), ("h", "0x10"), ("f", "2.50"), ("f", "-0.13"), ("i", "255"), ("d", "0.125"),
+             # doubles whose shortest text is not their 17-digit text (default precision 6 is part of the representation)
+             ("d", "0.1"), ("d", "1e+06"), ("d", "0.333333"), ("d", "-2.7")]
     for n in (1, 2, 3):
         combos = list(itertools.product(typed, repeat=n)) if n < 3 else \
             [tuple(rng.choice(typed) for _ in range(3)) for _ in range(600 if big else 200)]
